@@ -55,7 +55,7 @@ RULE = (
     "that state; history length <= L, at most B crashing runs (deviation bound), a crashing run "
     "is only explored when one more run may follow (the last run of a maximal history is "
     "fault-free); (L, B) per configuration size F = datasets*strategies*folds is listed in "
-    "coverage.bounds. States are merged by canonical form = sorted (relative path, digest of the "
+    "coverage.bounds (two pre-split UEA datasets: B <= 1). States are merged by canonical form = sorted (relative path, digest of the "
     "record without the four timing columns | fitted-parameter digest of a saved strategy) + "
     "sorted registry of results.pickle; a merged state is re-expanded only with a smaller crash "
     "count, executed transitions are cached per (state, options, crash). Nothing is sampled. "
@@ -109,8 +109,8 @@ FIRST_CLASSES = [(0, 1), (0, 0), (1, 1), (1, 0)]  # (predict_on_train, save_fitt
 BOUNDS = {
     "quick": {"hdd": [(2, 3, 2), (4, 3, 2), (6, 3, 1), (99, 2, 1)],
               "ram": [(4, 2, 1), (99, 2, 0)]},
-    "thorough": {"hdd": [(2, 4, 2), (4, 4, 2), (6, 4, 1), (99, 3, 1)],
-                 "ram": [(4, 3, 1), (99, 2, 1)]},
+    "thorough": {"hdd": [(2, 5, 3), (4, 5, 2), (6, 4, 2), (99, 4, 1)],
+                 "ram": [(4, 3, 2), (99, 3, 1)]},
 }
 _TIER = ["quick"]
 
@@ -148,15 +148,19 @@ def gen_cases(tier, seed):
     fam = int(seed) % 3
     big = []
     for kind, confs in (("hdd", hdd), ("ram", ram)):
-        for task, nd, ns, cv in confs:
+        for j, (task, nd, ns, cv) in enumerate(confs):
             F = nd * ns * N_FOLDS[cv]
             L, B = _bounds(tier, kind, F)
+            if cv.startswith("presplit") and nd == 2:
+                B = min(B, 1)  # every run parses four .ts files
             base = dict(kind=kind, task=task, nd=nd, ns=ns, cv=cv, fam=fam, L=L, B=B)
             if F == 1 or kind == "ram":
                 yield dict(base, first=None)
             else:
+                # the four shards of one configuration differ in cost; rotate their order so
+                # that equally expensive shards do not land on the same worker (index mod 16)
                 for i in range(4):
-                    big.append((F, dict(base, first=i)))
+                    big.append((F, dict(base, first=(i + j) % 4)))
     # simplest first
     for _, c in sorted(big, key=lambda fc: fc[0]):
         yield c
@@ -888,15 +892,16 @@ def _step_hdd(ctx, J, before, hist, O, crash, deep):
                 h2, observed=sorted(after))
         elif deep or (_canon(ctx, after), sit, pot, save) not in ctx.seen_keys:
             ctx.seen_keys.add((_canon(ctx, after), sit, pot, save))
-            # 1 the live object ("read back from memory"), 2 a fresh one from disk
-            _check_load(ctx, J, h2, sit, live, after, "live")
+            # 1 a fresh results object read from disk, 2 the live one ("read back from memory")
             fresh = call(lambda: __import__("joblib").load(
                 os.path.join(ctx.tmp, "results.pickle")))
             if not fresh.ok:
                 J.v("load:master-unloadable", "results.pickle cannot be loaded", h2,
                     observed=fresh.brief())
             else:
-                _check_load(ctx, J, h2, sit, fresh.value, after, "fresh")
+                _check_load(ctx, J, h2, sit, fresh.value, after,
+                            "fresh (joblib.load of results.pickle)")
+            _check_load(ctx, J, h2, sit, live, after, "live (the run's own)")
             if "results.pickle" in before:
                 b_reg = _registry(before["results.pickle"], ctx.tmp)
                 a_reg = _registry(after["results.pickle"], ctx.tmp)
